@@ -245,6 +245,24 @@ theorem start_ok_protocol_allowed (P : Params) (hP : P.Good) (c : HostCfg) (e : 
   obtain ⟨_, _, _, _, _, _, _, _, _, _, _, hpa, _⟩ := (start_ok_iff_wellformed P hP c e l a p v).1 h
   exact hpa
 
+/-- **A failed `Start` stays failed**: `c.address` (the "started" flag every later `Start`, `Client()`,
+`Protocol()` and `ReattachConfig()` answers from) is recorded exactly when `Start` succeeded, so no
+later call on the client can turn a rejected line into a success. -/
+theorem address_recorded_iff_ok (P : Params) (hP : P.Good) (c : HostCfg) (e : Ext) (i : Input) :
+    addressRecorded P c e i = true ↔ ∃ a p v, start P c e i = .ok a p v := by
+  obtain ⟨_, _, _, _, hL⟩ := hP
+  unfold addressRecorded start
+  cases hb : body P c e i <;> simp [deferred, hL]
+
+theorem failed_start_stays_failed (P : Params) (hP : P.Good) (c : HostCfg) (e : Ext) (i : Input) (k : ErrKind) (killed : Bool)
+    (h : start P c e i = .err k killed) : startAgainOk P c e i = false := by
+  unfold startAgainOk
+  cases hr : addressRecorded P c e i with
+  | false => rfl
+  | true =>
+    obtain ⟨a, p, v, hok⟩ := (address_recorded_iff_ok P hP c e i).1 hr
+    rw [h] at hok; cases hok
+
 /-! ### The structural facts matter: with either fact false the property fails (witnesses). -/
 
 /-- a resolver that knows nothing, identity translation -/
@@ -257,7 +275,7 @@ def lineFooBar : Bytes := [49, 124, 49, 124, 102, 111, 111, 124, 98, 97, 114]
 
 /-- D1: with the address error unchecked, `1|1|foo|bar` yields a nil error and a nil address. -/
 theorem addr_unchecked_witness :
-    start ⟨false, true, 4, 50, 1⟩ cfgPlain extNone (.line lineFooBar) = .okNoAddr := by decide
+    start ⟨false, true, 4, 50, 1, true⟩ cfgPlain extNone (.line lineFooBar) = .okNoAddr := by decide
 
 /-- `1|1|tcp|:1|netrpc|` followed by 51 bytes of certificate -/
 def lineCert : Bytes :=
@@ -268,19 +286,28 @@ def extAll : Ext := ⟨fun n a => some (n, a), fun a => some ⟨sTcp, a⟩, fun 
 /-- D2: without the nil guard, a parseable certificate offered to a client without TLS panics
 (and the deferred handler kills the plugin before re-panicking). -/
 theorem cert_nil_witness :
-    start ⟨true, false, 4, 50, 1⟩ cfgPlain extAll (.line lineCert) = .panic true := by decide
+    start ⟨true, false, 4, 50, 1, true⟩ cfgPlain extAll (.line lineCert) = .panic true := by decide
 
 /-- Fewer required fields than the four that are indexed: index out of range. -/
 theorem min_fields_witness :
-    start ⟨true, true, 3, 50, 1⟩ cfgPlain extAll (.line [49, 124, 49, 124, 116]) = .panic true := by decide
+    start ⟨true, true, 3, 50, 1, true⟩ cfgPlain extAll (.line [49, 124, 49, 124, 116]) = .panic true := by decide
+
+/-- `1|1|tcp|a|grpc` offered to a net/rpc-only client -/
+def lineGrpc : Bytes := [49, 124, 49, 124, 116, 99, 112, 124, 97, 124, 103, 114, 112, 99]
+
+/-- With the address recorded where it is resolved, a line rejected for its protocol makes the
+first `Start` fail (and kill the plugin) — and every later `Start` succeed. -/
+theorem address_early_witness :
+    start ⟨true, true, 4, 50, 1, false⟩ cfgPlain extAll (.line lineGrpc) = .err .protocol true ∧
+    startAgainOk ⟨true, true, 4, 50, 1, false⟩ cfgPlain extAll (.line lineGrpc) = true := by decide
 
 /-! ### Non-vacuity -/
 
 /-- `1|1|tcp|:1|netrpc|` is accepted by a plain client with exactly the line's values. -/
-example : start ⟨true, true, 4, 50, 1⟩ cfgPlain extAll
+example : start ⟨true, true, 4, 50, 1, true⟩ cfgPlain extAll
     (.line [49, 124, 49, 124, 116, 99, 112, 124, 58, 49, 124, 110, 101, 116, 114, 112, 99, 124])
     = .ok ⟨sTcp, [58, 49]⟩ sNetrpc 1 := by decide
 
-example : (⟨true, true, 4, 50, 1⟩ : Params).Good := by decide
+example : (⟨true, true, 4, 50, 1, true⟩ : Params).Good := by decide
 
 end GoPlugin.Props.C01
